@@ -21,6 +21,7 @@ import (
 	"sort"
 	"strconv"
 	"strings"
+	"time"
 	"unicode/utf8"
 
 	"github.com/rs/zerolog"
@@ -33,6 +34,8 @@ func main() { hlib.Main(map[string]func(*hlib.Ctx){"C16": runC16}) }
 type Case struct {
 	Event []byte
 	Opts  Opts
+	// how the ConsoleWriter of rendering i is built (construct.go); nil = assigned by emit
+	Constructions []string
 }
 
 // JSON twin: every string also in Go-quoted form (lossless for invalid UTF-8)
@@ -48,6 +51,10 @@ func (cs *Case) json() map[string]interface{} {
 	}
 	if utf8.Valid(cs.Event) {
 		j["event"] = string(cs.Event)
+	}
+	if cs.Constructions != nil {
+		j["writer_construction_per_rendering"] = cs.Constructions
+		j["writer_construction_legend"] = constructLegend
 	}
 	return j
 }
@@ -80,6 +87,12 @@ func caseFromJSON(j map[string]interface{}) *Case {
 	cs.Opts.TimeFormat, _ = o["time_format"].(string)
 	cs.Opts.Loc, _ = o["time_location"].(string)
 	cs.Opts.TimeFieldFormat, _ = o["time_field_format"].(string)
+	if l, ok := j["writer_construction_per_rendering"].([]interface{}); ok {
+		for _, x := range l {
+			m, _ := x.(string)
+			cs.Constructions = append(cs.Constructions, m)
+		}
+	}
 	return cs
 }
 
@@ -114,7 +127,11 @@ func render(cs *Case, reps int) obs {
 			disturbPool(i)
 		}
 		var out bytes.Buffer
-		w := cs.Opts.writer(&out)
+		mode := "literal"
+		if i < len(cs.Constructions) {
+			mode = cs.Constructions[i]
+		}
+		w := cs.Opts.writerVia(mode, &out, cs.Event)
 		n, err := w.Write(cs.Event)
 		ob.outs = append(ob.outs, append([]byte(nil), out.Bytes()...))
 		ob.ns = append(ob.ns, n)
@@ -124,7 +141,7 @@ func render(cs *Case, reps int) obs {
 }
 
 func runC16(c *Ctx) {
-	c.Res.Rule = "a case is (event bytes, ConsoleWriter options); events are produced by really logging through zerolog with a seeded generator over every field method (strings of every escaping class incl. control/non-ASCII/invalid UTF-8, all integer/float kinds, bools, nil, Dict/Array/Object/EmbedObject nesting, durations, times, errors, RawJSON, Fields, context fields, user fields named like the reserved names with every value type, the empty key, duplicate keys, keys colliding after escaping), half of them without the trailing newline (as cmd/prettylog passes them); options: PartsOrder nil/empty/permutations/subsets/custom names/repeated names, PartsExclude, FieldsOrder (incl. absent, reserved and repeated names), FieldsExclude, 11 TimeFormats, TimeLocation UTC/fixed offsets/nil(Local=UTC), 9 TimeFieldFormats incl. the four UNIX variants; every case is rendered 3 or 5 times; plus a malformed-input stream (model only). non-trivial = the event decodes and at least one field is rendered; distinct by (event, options)"
+	c.Res.Rule = "a case is (event bytes, ConsoleWriter options); events are produced by really logging through zerolog with a seeded generator over every field method (strings of every escaping class incl. control/non-ASCII/invalid UTF-8, all integer/float kinds, bools, nil, Dict/Array/Object/EmbedObject nesting, durations, times, errors, RawJSON, Fields, context fields, user fields named like the reserved names with every value type, the empty key, duplicate keys, keys colliding after escaping), half of them without the trailing newline (as cmd/prettylog passes them); options: PartsOrder nil/empty/permutations/subsets/custom names/repeated names, PartsExclude, FieldsOrder (incl. absent, reserved and repeated names), FieldsExclude, 11 TimeFormats, TimeLocation UTC/fixed offsets/nil(Local=UTC), 9 TimeFieldFormats incl. the four UNIX variants; every case is rendered 3 or 5 times: renderings 0 and 1 by a struct-literal writer, the later ones by writers that reach the same configuration another way (NewConsoleWriter() then assignment of the exported fields, NewConsoleWriter with one or three option functions, a writer constructed and used under a different configuration and then re-assigned, a struct copy of a used writer), rotating from case to case; directed: every construction first/last x 10 configurations; every value type under the message key (Send / Msg(\"\") / Msg(text)) with the message part checked for the number's digits / the string; plus a malformed-input stream (model only). non-trivial = the event decodes and at least one field is rendered; distinct by (event, options)"
 	if os.Getenv("NO_COLOR") != "" {
 		c.Note("NO_COLOR is set; irrelevant with NoColor=true")
 	}
@@ -135,11 +152,24 @@ func runC16(c *Ctx) {
 	// shifted by one; forking once first puts this run's per-case generators on an unrelated part of the orbit
 	root := c.R.Fork()
 	interiorNL := 0
+	emitted := 0
 	emit := func(cs *Case, class string) {
 		reps := 3
 		dec := decodeEvent(cs.Event)
 		if len(dec.kvs) >= 5 {
 			reps = 5
+		}
+		if cs.Constructions == nil {
+			// renderings 0 and 1 through a struct literal (as always), the later ones through the
+			// other ways of arriving at the same configuration, rotating from case to case
+			cs.Constructions = []string{"literal", "literal"}
+			for i := 2; i < reps; i++ {
+				cs.Constructions = append(cs.Constructions, constructModes[(emitted+i)%len(constructModes)])
+			}
+		}
+		emitted++
+		for _, m := range cs.Constructions {
+			c.Hist("writer_construction", m)
 		}
 		ob := render(cs, reps)
 		if dec.ok && bytes.Count(ob.outs[0], []byte("\n")) > 1 {
@@ -332,6 +362,113 @@ func runC16(c *Ctx) {
 		emit(def(logged(func(l zerolog.Logger) {
 			l.Log().RawJSON("level", raw).RawJSON("message", raw).RawJSON("caller", raw).RawJSON("time", raw).RawJSON("k", raw).Send()
 		})), "directed-level")
+	}
+
+	// ---- directed: every value type under the message key, as the JSON logger emits it when a user field is
+	// named like the message (Send / Msg("") leave it the last "message" key; Msg(text) shadows it), at every
+	// level class, alone and next to other fields, with the message part first / last / excluded
+	{
+		type mv struct {
+			name string
+			add  func(e *zerolog.Event) *zerolog.Event
+		}
+		vals := []mv{
+			{"int", func(e *zerolog.Event) *zerolog.Event { return e.Int("message", 7) }},
+			{"negative-int64", func(e *zerolog.Event) *zerolog.Event { return e.Int64("message", -9223372036854775808) }},
+			{"max-uint64", func(e *zerolog.Event) *zerolog.Event { return e.Uint64("message", 18446744073709551615) }},
+			{"float", func(e *zerolog.Event) *zerolog.Event { return e.Float64("message", 2.5) }},
+			{"float-exponent", func(e *zerolog.Event) *zerolog.Event { return e.Float64("message", 1e21) }},
+			{"float32", func(e *zerolog.Event) *zerolog.Event { return e.Float32("message", 0.1) }},
+			{"raw-number-forms", func(e *zerolog.Event) *zerolog.Event { return e.RawJSON("message", []byte(`-0.50E+3`)) }},
+			{"raw-long-number", func(e *zerolog.Event) *zerolog.Event {
+				return e.RawJSON("message", []byte(`123456789012345678901234567890.000000000000000000001`))
+			}},
+			{"zero", func(e *zerolog.Event) *zerolog.Event { return e.Int("message", 0) }},
+			{"duration", func(e *zerolog.Event) *zerolog.Event { return e.Dur("message", 1500*time.Millisecond) }},
+			{"bool", func(e *zerolog.Event) *zerolog.Event { return e.Bool("message", true) }},
+			{"null", func(e *zerolog.Event) *zerolog.Event { return e.Interface("message", nil) }},
+			{"dict", func(e *zerolog.Event) *zerolog.Event { return e.Dict("message", zerolog.Dict().Int("n", 1)) }},
+			{"strs", func(e *zerolog.Event) *zerolog.Event { return e.Strs("message", []string{"a", "b c"}) }},
+			{"ints", func(e *zerolog.Event) *zerolog.Event { return e.Ints("message", []int{1, 2}) }},
+			{"string-plain", func(e *zerolog.Event) *zerolog.Event { return e.Str("message", "field-text") }},
+			{"string-with-space", func(e *zerolog.Event) *zerolog.Event { return e.Str("message", "field text \"q\"") }},
+			{"string-digits", func(e *zerolog.Event) *zerolog.Event { return e.Str("message", "42") }},
+			{"time", func(e *zerolog.Event) *zerolog.Event { return e.Time("message", time.Unix(1577934245, 0).UTC()) }},
+		}
+		levels := []zerolog.Level{zerolog.InfoLevel, zerolog.DebugLevel, zerolog.ErrorLevel, zerolog.NoLevel}
+		n := 0
+		for vi, v := range vals {
+			for fin := 0; fin < 3; fin++ {
+				lvl := levels[(vi+fin)%len(levels)]
+				ev := logged(func(l zerolog.Logger) {
+					e := l.WithLevel(lvl)
+					if (vi+fin)%2 == 0 {
+						e = e.Str("foo", "bar")
+					}
+					e = v.add(e)
+					if fin == 2 {
+						e = e.Int("zz", 1)
+					}
+					switch fin {
+					case 0:
+						e.Send()
+					case 1:
+						e.Msg("")
+					default:
+						e.Msg("the text")
+					}
+				})
+				cs := def(ev)
+				switch n % 4 {
+				case 1:
+					cs.Opts.PartsOrderSet, cs.Opts.PartsOrder = true, []string{"message", "level"}
+				case 2:
+					cs.Opts.PartsOrderSet, cs.Opts.PartsOrder = true, []string{"level", "foo", "message"}
+				case 3:
+					cs.Opts.FieldsExclude = []string{"message", "foo"}
+				}
+				emit(cs, "directed-message")
+				n++
+			}
+		}
+		// the same under the other three part names (what they print is not fixed by the text; model only)
+		for _, name := range []string{"level", "caller", "time"} {
+			for _, raw := range []string{`7`, `2.5`, `true`, `{"a":1}`} {
+				emit(def(logged(func(l zerolog.Logger) { l.Info().Str("k", "v").RawJSON(name, []byte(raw)).Send() })), "directed-message")
+			}
+		}
+	}
+
+	// ---- directed: the ways of arriving at one configuration (construct.go).  Every construction as the FIRST
+	// rendering (the one the model predicts) and as the last, against the struct literal in between, over
+	// configurations in which every option matters for the line.
+	{
+		ev := logged(func(l zerolog.Logger) {
+			ll := l.With().Timestamp().Logger()
+			ll.Warn().Str("caller", cwd+"/pkg/file.go:42").Str("aardvark", "Able").Int("badger", 7).Str("mussel", "Mountain").Str("zebra", "Zulu").Err(fmt.Errorf("boom")).Msg("Zoo")
+		})
+		confs := []func(o *Opts){
+			func(o *Opts) { o.FieldsOrder = []string{"zebra", "mussel"} },
+			func(o *Opts) { o.FieldsOrder = []string{"mussel", "nope", "aardvark", "zebra"} },
+			func(o *Opts) { o.FieldsOrder = []string{"badger"}; o.FieldsExclude = []string{"aardvark"} },
+			func(o *Opts) { o.FieldsExclude = []string{"zebra", "error"} },
+			func(o *Opts) { o.PartsOrderSet, o.PartsOrder = true, []string{"message", "level", "zebra"} },
+			func(o *Opts) { o.PartsOrderSet, o.PartsOrder = true, []string{} },
+			func(o *Opts) { o.PartsExclude = []string{"time", "caller"}; o.FieldsOrder = []string{"zebra"} },
+			func(o *Opts) { o.TimeFormat = time.RFC3339Nano; o.Loc = "330" },
+			func(o *Opts) { o.TimeFormat = time.StampMicro; o.Loc = "nil"; o.FieldsOrder = []string{"error", "zebra"} },
+			func(o *Opts) {},
+		}
+		for _, mode := range constructModes {
+			for ci, conf := range confs {
+				cs := def(ev)
+				conf(&cs.Opts)
+				// distinct configurations per construction (the case key is event + options)
+				cs.Opts.FieldsExclude = append(cs.Opts.FieldsExclude, "verif-"+mode)
+				cs.Constructions = []string{mode, "literal", mode, constructModes[ci%len(constructModes)], mode}
+				emit(cs, "directed-construction")
+			}
+		}
 	}
 
 	// ---- random
